@@ -69,7 +69,7 @@ def _evolve(case, which, params, bulk_order=None, F_inputs=None):
         chain.append(F)
         pl = (flow.t_of(ta), flow.t_of(tb), flow.get_position)
         if bulk_order is not None:
-            F = sut(pydrex.update_all, [ms[w] for w in bulk_order], params, F, flow.get_velocity_gradient, pl, allowed=hist.SOLVER_ERRORS)
+            F = hist.update_bulk([ms[w] for w in bulk_order], params, F, flow, ta, tb)
         else:
             Fn = None
             for w in which:
